@@ -450,7 +450,7 @@ struct HashW {
             }
             case H_COPY_ASSIGN: {
                 LibCall lc;
-                h = *obj[k];
+                assign_in_own_unit(h, *obj[k]);
                 if (j != k) m = model[k];
                 break;
             }
@@ -458,7 +458,7 @@ struct HashW {
                 if (j == k) break;
                 {
                     LibCall lc;
-                    h = static_cast<Tab &&>(*obj[k]);
+                    assign_in_own_unit(h, static_cast<Tab &&>(*obj[k]));
                 }
                 m = model[k];
                 model[k].clear();
@@ -592,7 +592,7 @@ struct HashW {
                 }
                 {
                     LibCall lc;
-                    h += *obj[k];
+                    append_in_own_unit(h, *obj[k]);
                 }
                 for (auto &e : src) {
                     int at = find(m, e.key);
@@ -607,7 +607,7 @@ struct HashW {
                 if (j == k) break;
                 {
                     LibCall lc;
-                    h += static_cast<Tab &&>(*obj[k]);
+                    append_in_own_unit(h, static_cast<Tab &&>(*obj[k]));
                 }
                 for (auto &e : model[k]) {
                     int at = find(m, e.key);
